@@ -615,8 +615,9 @@ Qed.
 
 Lemma step_spec st o : inv st -> op_hyp st o = true -> step_ok st o.
 Proof.
-  intros Hinv Hyp. unfold step_ok. destruct o as [k r g|k r g|k r gs|k r gs|x f v|x f items de|x f|c f i n vs|x|x f];
+  intros Hinv Hyp. unfold step_ok. destruct o as [k r g|k r g|k r gs|k r gs|x f v|x f items de|x f|c f i n vs|x|x f|x f];
     cbn [step notified op_hyp] in *.
+  11: discriminate.
   10: { (* AddTrait *)
     apply andb_true_iff in Hyp. destruct Hyp as [Hyp W]. apply andb_true_iff in Hyp. destruct Hyp as [Nt Nv].
     apply negb_true_iff in Nt. rewrite Nt.
@@ -874,8 +875,9 @@ Lemma step_law st o : inv st -> op_hyp st o = true ->
   /\ law_regs (st_regs st) o (snd (step st o)) = st_regs (fst (step st o))
   /\ law_traits (st_traits st) o (snd (step st o)) = st_traits (fst (step st o)).
 Proof.
-  intros Hinv Hyp. destruct o as [k r g|k r g|k r gs|k r gs|x f v|x f items de|x f|c f i n vs|x|x f];
+  intros Hinv Hyp. destruct o as [k r g|k r g|k r gs|k r gs|x f v|x f items de|x f|c f i n vs|x|x f|x f];
     cbn [step op_hyp] in *.
+  11: discriminate.
   10: { (* AddTrait *)
     apply andb_true_iff in Hyp. destruct Hyp as [Hyp W]. apply andb_true_iff in Hyp. destruct Hyp as [Nt Nv].
     apply negb_true_iff in Nt. rewrite Nt.
